@@ -1061,7 +1061,11 @@ fn render_float_def(
     let value_abs = value.abs();
     let is_neg = value.is_sign_negative() && value != 0.0;
 
-    let mut digits_str = format!("{value_abs:.prec$}");
+    // `core::fmt` only supports precisions up to `u16::MAX`; an `f64` has
+    // fewer fractional digits than that, so the remaining ones are zeros.
+    let fmt_prec = prec.min(usize::from(u16::MAX));
+    let mut digits_str = format!("{value_abs:.fmt_prec$}");
+    digits_str.extend(std::iter::repeat_n('0', prec - fmt_prec));
     if prec == 0 && ensure_pt {
         digits_str.push('.');
     } else if prec != 0 && trim_zeros {
@@ -1088,9 +1092,17 @@ fn render_float_exp(
     let value_abs = value.abs();
     let is_neg = value.is_sign_negative() && value != 0.0;
 
-    let digits_str = format!("{value_abs:.prec$e}");
+    // `core::fmt` only supports precisions below `u16::MAX` here; an `f64` has
+    // fewer significant digits than that, so the remaining ones are zeros.
+    let fmt_prec = prec.min(usize::from(u16::MAX) - 1);
+    let digits_str = format!("{value_abs:.fmt_prec$e}");
     let e_pos = digits_str.bytes().position(|chr| chr == b'e').unwrap();
+    let padded_mant_str;
     let mut mant_str = &digits_str[..e_pos];
+    if prec > fmt_prec {
+        padded_mant_str = format!("{mant_str}{}", "0".repeat(prec - fmt_prec));
+        mant_str = &padded_mant_str;
+    }
     if prec != 0 && trim_zeros {
         mant_str = mant_str.trim_end_matches('0');
         if !ensure_pt {
